@@ -45,12 +45,11 @@ static const cfg_t cfgs[] = {
     { "primary: 3 unnamed -> [P0,Q1,P0] (pool list), same fn, distinct args; "
       "stream join + finalize", 1, CR_PRIMARY, L_SPLIT, 3, 0, F_SAME, A_DISTINCT,
       0, 1, END_NONE, J_PRIMARY, 0, 1 },
-    { "ULT on ES1: 2 named -> private Q1 (PRIV); the creator free_many's", 1,
-      CR_ULT1, L_PRIV, 2, 1, F_DISTINCT, A_DISTINCT, 0, 1, END_FREE, J_CREATOR, 0,
-      0 },
-    { "X: 2 named -> Q1 shared by ES0+ES1 (MPMC), unit0 yields; X join_many + "
-      "free_many", 1, CR_EXT, L_SHARED, 2, 1, F_DISTINCT, A_DISTINCT, 0, 1,
-      END_JOIN_FREE, J_CREATOR, 0, 1 },
+    { "X: 2 named -> Q1@ES1, unit0 yields; X join_many + free_many", 1, CR_EXT,
+      L_ES1, 2, 1, F_DISTINCT, A_DISTINCT, 0, 1, END_JOIN_FREE, J_CREATOR, 0, 0 },
+    { "X: 2 named -> Q1 shared by ES0+ES1 (MPMC), unit0 yields; primary "
+      "join_many + free_many", 1, CR_EXT, L_SHARED, 2, 1, F_DISTINCT, A_DISTINCT,
+      0, 1, END_JOIN_FREE, J_PRIMARY, 0, 1 },
     { "primary and X: 2+2 unnamed -> Q1@ES1 at the same time; stream join", 1,
       CR_TWO, L_ES1, 2, 0, F_SAME, A_DISTINCT, 0, 0, END_NONE, J_PRIMARY, 0, 0 },
     { "ULT on ES1: 2 named with attr(stacksize) -> ES0's pool; primary "
@@ -73,9 +72,12 @@ static const cfg_t cfgs[] = {
     { "primary: 3 unnamed with attr -> Q1@ES1 FIFO_WAIT/BASIC_WAIT; stream join",
       0, CR_PRIMARY, L_ES1, 3, 0, F_SAME, A_DISTINCT, 1, 1, END_NONE, J_PRIMARY,
       1, 0 },
-    { "primary and X: 2+2 named -> Q1@ES1, unit0 yields; primary join_many + "
-      "free_many of both batches", 0, CR_TWO, L_ES1, 2, 1, F_DISTINCT,
-      A_DISTINCT, 0, 1, END_JOIN_FREE, J_PRIMARY, 0, 0 },
+    { "primary and X: 2+2 named -> Q1@ES1 at the same time; each join_many + "
+      "free_many its batch", 0, CR_TWO, L_ES1, 2, 1, F_SAME, A_DISTINCT, 0, 0,
+      END_JOIN_FREE, J_CREATOR, 0, 0 },
+    { "ULT on ES1: 2 named -> private Q1 (PRIV); the creator free_many's "
+      "(sequential: one stream)", 0, CR_ULT1, L_PRIV, 2, 1, F_DISTINCT,
+      A_DISTINCT, 0, 1, END_FREE, J_CREATOR, 0, 0 },
 };
 
 #define MAXU 6
